@@ -54,7 +54,51 @@ def shards(tier):
         for mode in ("cart", "cart_compact", "polar", "polar_deg"):
             out.append(("complex", ("c", q, mode)))
     out.append(("display helpers", ("d",)))
+    for k in range(len(UPDATE_VALUES)):
+        out.append(("render, update the object, render again", ("u", k)))
     return out
+
+
+# a ScientificFloat object is mutable: rendered, given another value / precision / prefix table, and rendered again it
+# shows what a fresh object with those fields shows
+UPDATE_VALUES = [4.7e3, 3.3e-3, 1.23456789e-4, 2.2e6, -9.995, 0.99996, 5e-13, -7.77e13]
+
+
+def run_updates(k, res):
+    from CircuitCalculator.Utils import ScientificFloat
+    states = [(v, p, tb) for v in UPDATE_VALUES for p in (1, 3, 6) for tb in ("none", "default", "umk", "pnum")]
+    v1 = UPDATE_VALUES[k]
+    for (a, p1, tb1) in [s_ for s_ in states if s_[0] == v1]:
+        for (b, p2, tb2) in states:
+            res["evals"] += 1
+            res["transitions"] += 1
+            bump(res["hits"], "render_update_render")
+            case = {"what": "update", "first": [float(a).hex(), p1, tb1], "second": [float(b).hex(), p2, tb2]}
+
+            def make(v, p, tb):
+                if TABLES[tb] is None:
+                    return ScientificFloat(v, "V", precision=p)
+                return ScientificFloat(v, "V", precision=p, use_exp_prefix=True, exp_prefixes=dict(TABLES[tb]))
+            try:
+                obj = make(a, p1, tb1)
+                first = str(obj)
+                obj.value, obj.precision = b, p2
+                obj.use_exp_prefix = TABLES[tb2] is not None
+                if TABLES[tb2] is not None:
+                    obj.exp_prefixes = dict(TABLES[tb2])
+                second = str(obj)
+                fresh = str(make(b, p2, tb2)) if TABLES[tb2] is not None or TABLES[tb1] is None else None
+                if fresh is None:
+                    # (switching the prefixes off keeps the object's old table as an unused field: compare with such an object)
+                    o2 = make(b, p2, tb1)
+                    o2.use_exp_prefix = False
+                    fresh = str(o2)
+            except Exception as e:
+                add_violation(res, "accuracy_half_unit", case, "two renderings", "%s: %s" % (type(e).__name__, e), "render / update / render raised", kind="exception:" + type(e).__name__)
+                continue
+            res["fps"].add(hash((first, second)) & 0xFFFFFFFFFF)
+            if second != fresh:
+                add_violation(res, "accuracy_half_unit", case, fresh, second, "an object rendered once and then given other fields does not render like a fresh object with those fields")
 
 
 def variants(v, p):
@@ -83,6 +127,8 @@ def run_shard(desc):
                         judge_float(sgn * v, p, tb, res, keys)
     elif desc[0] == "c":
         run_complex(desc[1], desc[2], res)
+    elif desc[0] == "u":
+        run_updates(desc[1], res)
     else:
         run_display(res)
     return res
@@ -90,6 +136,10 @@ def run_shard(desc):
 
 def replay(case):
     res = new_result()
+    if case["what"] == "update":
+        k = UPDATE_VALUES.index(float.fromhex(case["first"][0]))
+        run_updates(k, res)
+        return [v for v in res["violations"] if v["case"]["first"] == case["first"] and v["case"]["second"] == case["second"]]
     if case["what"] == "float":
         judge_float(float.fromhex(case["hex"]), case["p"], case["table"], res, set())
     elif case["what"] == "complex":
